@@ -17,13 +17,19 @@
   total), `hmean` (nestle's `mean_and_cov` is external: its entry `i` is assumed to be the weighted mean of column `i`),
   valid positions in `restore`.
 
+  * `srcNestleStore names samples w mean logz logzerr pk` — the dict returned by the WHOLE `store_nestle_output` (flat
+    record `(Stats/Log-Evidence, Stats/Log-Evidence-Error, Stats/Peakiness, solution/fitparams, solution/samples,
+    solution/weights)`, `fitparams` = the list of its (fit name, record) stores), `weights.argmax()` instantiated with
+    numpy's first index of the maximum (`argmaxFirst`); `srcMultinestMode`, `srcPolychordMode` — the dict
+    `(fit_params, tracedata, weights)` the other two samplers store for one mode.
+  `map_is_heaviest` is restated as `src_map_is_heaviest` (the `map` entries of the whole regenerated function are read
+  at the first sample of greatest weight), `traces_unchanged` in full as `src_store_traces_unchanged` (nestle) and its
+  `tracedata / weights / trace` parts as `src_mode_traces_unchanged` (MultiNest / PolyChord: their MAP is the sampler's
+  own vector, passed through).
+
   Not restated (no tie):
-  * `map_is_heaviest`: `argmaxFirst` stands for the external `weights.argmax()`; it is a parameter (`max_weight`) of the
-    translated loop body, not a regenerated definition (what the code does with that index is in `src_traces_unchanged`);
   * `wmean_between` for the nestle record: its mean is the external `mean_and_cov` (hypothesis `hmean`); restated for the
     derived record, where `np.average` is instantiated by `wmean`;
-  * `traces_unchanged`, parts about `storeOutput … .tracedata/.weights` (the whole-object stores `self._samples = …` are
-    outside the translated loop body) — the per-parameter parts are restated in `src_traces_unchanged`;
   * `derived_trace_in_sample_order`, parts about `derivedTrace` (the generator closure that evaluates the model per sample
     is not translated) — the re-ordering part is restated.
 -/
@@ -289,5 +295,177 @@ theorem src_derived_trace_in_sample_order (trace w : List ℝ) (g : Nat → ℝ)
     show gather (argsortNat (List.range gt.length)) gt = _
     rw [src_derived_restore]
     exact restoreOrder_range gt
+
+/-! ### the whole `store_nestle_output` and the per-mode dicts of MultiNest / PolyChord -/
+
+/-- the dict returned by the WHOLE `store_nestle_output`, regenerated source, as the flat record
+    `(Stats/Log-Evidence, Stats/Log-Evidence-Error, Stats/Peakiness, solution/fitparams, solution/samples,
+    solution/weights)`; `weights.argmax()` instantiated with numpy's first index of the maximum -/
+noncomputable def srcNestleStore {Name : Type} (names : List Name) (samples : List (List ℝ)) (w mean : List ℝ)
+    (logz logzerr pk : ℝ) : ℝ × ℝ × ℝ × List (Name × (ℝ × ℝ × ℝ × ℝ × List ℝ × ℝ)) × List (List ℝ) × List ℝ :=
+  Gen.SrcC09.nestle_store (accumulate := cumsum 0) (argmax := argmaxFirst) (argsort := argsortStable) (c0p16 := q16)
+    (c0p5 := q50) (c0p84 := q84) (fit_names := names) (interp := interpAll) (logz := logz) (logzerr := logzerr)
+    (nestle_mean := mean) (peakiness := pk) (result_samples := samples) (result_weights := w)
+
+/-- the dict `store_nest_solutions` stores for one mode: `(fit_params, tracedata, weights)` -/
+noncomputable def srcMultinestMode {Name : Type} (names : List Name) (trace : List (List ℝ)) (w nmap nmean nsig : List ℝ) :
+    List (Name × (ℝ × ℝ × ℝ × ℝ × ℝ × List ℝ × ℝ)) × List (List ℝ) × List ℝ :=
+  Gen.SrcC09.multinest_mode (accumulate := cumsum 0) (argsort := argsortStable) (c0p16 := q16) (c0p5 := q50)
+    (c0p84 := q84) (fit_names := names) (interp := interpAll) (nest_map := nmap) (nest_mean := nmean)
+    (nest_sigma := nsig) (tracedata := trace) (weights := w)
+
+/-- the dict `store_polychord_solutions` stores for one mode: `(fit_params, tracedata, weights)` -/
+noncomputable def srcPolychordMode {Name : Type} (names : List Name) (trace : List (List ℝ)) (w nmap nmean nsig : List ℝ) :
+    List (Name × (ℝ × ℝ × ℝ × ℝ × ℝ × List ℝ × ℝ)) × List (List ℝ) × List ℝ :=
+  Gen.SrcC09.polychord_mode (accumulate := cumsum 0) (argsort := argsortStable) (c0p16 := q16) (c0p5 := q50)
+    (c0p84 := q84) (fit_names := names) (interp := interpAll) (nest_map := nmap) (nest_mean := nmean)
+    (nest_sigma := nsig) (tracedata := trace) (weights := w)
+
+theorem srcNestleStore_eq {Name : Type} (names : List Name) (samples : List (List ℝ)) (w mean : List ℝ)
+    (logz logzerr pk : ℝ) (h : samples.length = w.length)
+    (hmean : ∀ i, i < names.length → mean.getD i 0 = wmean (column samples i) w) :
+    srcNestleStore names samples w mean logz logzerr pk
+      = (logz, logzerr, pk,
+         names.zipIdx.map (fun it => (it.1,
+           ((column samples it.2).getD (storeOutput names.length samples w).mapIndex 0,
+            (summary (column samples it.2) w).mean, (summary (column samples it.2) w).sigmaM,
+            (summary (column samples it.2) w).sigmaP, column samples it.2, (summary (column samples it.2) w).value))),
+         (storeOutput names.length samples w).tracedata, (storeOutput names.length samples w).weights) :=
+  src_nestle_store names samples w mean logz logzerr pk h hmean
+
+/-- entry `i` of a list built by mapping over `zipIdx` -/
+theorem zipIdx_map_getElem? {β γ : Type} (l : List β) (f : β × Nat → γ) (i : Nat) :
+    (l.zipIdx.map f)[i]? = (l[i]?).map (fun a => f (a, i)) := by
+  simp [Function.comp_def]
+
+/-- The MAP of the WHOLE regenerated `store_nestle_output`, with `weights.argmax()` = numpy's first index of the maximum:
+    there is a sample index `k` — a valid index, no weight exceeds the weight there, every earlier weight is smaller: the
+    first sample of greatest weight — such that the `map` entry stored for every fit parameter `i` is entry `i` of
+    sample `k`. -/
+theorem src_map_is_heaviest {Name : Type} (names : List Name) (samples : List (List ℝ)) (w mean : List ℝ)
+    (logz logzerr pk : ℝ) (h : samples.length = w.length)
+    (hmean : ∀ i, i < names.length → mean.getD i 0 = wmean (column samples i) w) (hne : w ≠ []) :
+    ∃ k, k < w.length ∧ (∀ j, j < w.length → w.getD j 0 ≤ w.getD k 0) ∧ (∀ j, j < k → w.getD j 0 < w.getD k 0) ∧
+      ∀ i, i < names.length →
+        ((srcNestleStore names samples w mean logz logzerr pk).2.2.2.1[i]?).map (fun e => e.2.1)
+          = some ((samples.getD k []).getD i 0) := by
+  obtain ⟨h1, h2, h3⟩ := map_is_heaviest w hne
+  refine ⟨argmaxFirst w, h1, h2, h3, ?_⟩
+  intro i hi
+  rw [srcNestleStore_eq names samples w mean logz logzerr pk h hmean]
+  show ((names.zipIdx.map _)[i]?).map _ = _
+  rw [zipIdx_map_getElem?, List.getElem?_eq_getElem hi]
+  show some ((column samples i).getD (argmaxFirst w) 0) = _
+  rw [src_nestle_map samples w names.length i]
+  rfl
+
+/-- the hypotheses are satisfiable: two fit names, three samples with a tie for the greatest weight, `mean` the weighted
+    column means -/
+example : ∃ (names : List String) (samples : List (List ℝ)) (w mean : List ℝ), samples.length = w.length ∧ w ≠ [] ∧
+    (∀ i, i < names.length → mean.getD i 0 = wmean (column samples i) w) :=
+  ⟨["T", "R"], [[1, 2], [3, 4], [5, 6]], [1, 3, 3],
+    [wmean (column [[1, 2], [3, 4], [5, 6]] 0) [1, 3, 3], wmean (column [[1, 2], [3, 4], [5, 6]] 1) [1, 3, 3]],
+    rfl, by simp, by
+      intro i hi
+      have : i = 0 ∨ i = 1 := by simp at hi; omega
+      rcases this with rfl | rfl <;> rfl⟩
+
+theorem srcMultinestMode_eq {Name : Type} (names : List Name) (trace : List (List ℝ)) (w nmap nmean nsig : List ℝ)
+    (h : trace.length = w.length) :
+    srcMultinestMode names trace w nmap nmean nsig
+      = (names.zipIdx.map (fun it => (it.1,
+           (nmean.getD it.2 0, nmap.getD it.2 0, nsig.getD it.2 0, (summary (column trace it.2) w).sigmaM,
+            (summary (column trace it.2) w).sigmaP, column trace it.2, (summary (column trace it.2) w).value))),
+         (storeOutput names.length trace w).tracedata, (storeOutput names.length trace w).weights) :=
+  src_multinest_mode names trace w nmap nmean nsig h
+
+theorem srcPolychordMode_eq {Name : Type} (names : List Name) (trace : List (List ℝ)) (w nmap nmean nsig : List ℝ)
+    (h : trace.length = w.length) :
+    srcPolychordMode names trace w nmap nmean nsig
+      = (names.zipIdx.map (fun it => (it.1,
+           (nmap.getD it.2 0, nmean.getD it.2 0, nsig.getD it.2 0, (summary (column trace it.2) w).sigmaM,
+            (summary (column trace it.2) w).sigmaP, column trace it.2, (summary (column trace it.2) w).value))),
+         (storeOutput names.length trace w).tracedata, (storeOutput names.length trace w).weights) :=
+  src_polychord_mode names trace w nmap nmean nsig h
+
+/-- the keys of a dict filled by mapping over `zipIdx` are the list itself -/
+theorem zipIdx_map_keys {β γ : Type} (l : List β) (f : β × Nat → γ) :
+    (l.zipIdx.map (fun it => (it.1, f it))).map Prod.fst = l := by
+  rw [List.map_map]
+  apply List.ext_getElem?
+  intro i
+  rw [zipIdx_map_getElem?]
+  cases l[i]? <;> rfl
+
+/-- `traces_unchanged` about the WHOLE regenerated `store_nestle_output`: what is stored is the sampler's output
+    unchanged — `solution/samples` are the samples, `solution/weights` the weights, `solution/fitparams` has one entry
+    per fit name, in order; the entry of parameter `i` holds as `map` entry `i` of the sample of greatest weight, as
+    `value / sigma_m / sigma_p / mean` the model's summary of column `i` (the `params[i]` of `storeOutput`), as `trace`
+    column `i` of the samples; the MAP vector assembled from the `map` entries is `storeOutput`'s `mapVector` (when the
+    sample of greatest weight has one entry per fit name). -/
+theorem src_store_traces_unchanged {Name : Type} (names : List Name) (samples : List (List ℝ)) (w mean : List ℝ)
+    (logz logzerr pk : ℝ) (h : samples.length = w.length)
+    (hmean : ∀ i, i < names.length → mean.getD i 0 = wmean (column samples i) w) :
+    (srcNestleStore names samples w mean logz logzerr pk).2.2.2.2.1 = samples ∧
+    (srcNestleStore names samples w mean logz logzerr pk).2.2.2.2.2 = w ∧
+    (srcNestleStore names samples w mean logz logzerr pk).2.2.2.1.map Prod.fst = names ∧
+    (∀ i (hi : i < names.length), (srcNestleStore names samples w mean logz logzerr pk).2.2.2.1[i]? = some (names[i],
+        ((samples.getD (argmaxFirst w) []).getD i 0, (summary (column samples i) w).mean,
+         (summary (column samples i) w).sigmaM, (summary (column samples i) w).sigmaP, column samples i,
+         (summary (column samples i) w).value))) ∧
+    (∀ i, i < names.length → (storeOutput names.length samples w).params[i]? = some (summary (column samples i) w)) ∧
+    ((samples.getD (argmaxFirst w) []).length = names.length →
+      (srcNestleStore names samples w mean logz logzerr pk).2.2.2.1.map (fun e => e.2.1)
+        = mapVector (storeOutput names.length samples w)) ∧
+    (∀ i k : Nat, (column samples i)[k]? = (samples[k]?).map (fun (row : List ℝ) => row.getD i 0)) := by
+  obtain ⟨htr, hwt, hmap, hpar, hcol⟩ := traces_unchanged names.length samples w
+  rw [srcNestleStore_eq names samples w mean logz logzerr pk h hmean]
+  refine ⟨htr, hwt, zipIdx_map_keys names _, ?_, hpar, ?_, hcol⟩
+  · intro i hi
+    show (names.zipIdx.map _)[i]? = _
+    rw [zipIdx_map_getElem?, List.getElem?_eq_getElem hi]
+    show some (names[i], (column samples i).getD (argmaxFirst w) 0, _) = _
+    rw [src_nestle_map samples w names.length i, hmap]
+  · intro hrow
+    show (names.zipIdx.map _).map _ = _
+    rw [hmap, List.map_map]
+    apply List.ext_getElem?
+    intro i
+    rw [zipIdx_map_getElem?]
+    show (names[i]?).map (fun _ => (column samples i).getD (argmaxFirst w) 0) = _
+    rw [src_nestle_map samples w names.length i, hmap]
+    by_cases hi : i < names.length
+    · rw [List.getElem?_eq_getElem hi, List.getElem?_eq_getElem (by rw [hrow]; exact hi)]
+      simp [List.getD, List.getElem?_eq_getElem (show i < (samples[argmaxFirst w]?.getD []).length by
+        simpa [List.getD] using (by rw [hrow]; exact hi : i < (samples.getD (argmaxFirst w) []).length))]
+    · rw [List.getElem?_eq_none (by omega), List.getElem?_eq_none (by rw [hrow]; omega)]
+      rfl
+
+/-- the same for one mode of MultiNest / PolyChord (regenerated iteration of the per-mode loops of `store_nest_solutions`
+    / `store_polychord_solutions`): `tracedata` and `weights` of the stored dict are the mode's samples and weights
+    unchanged, `fit_params` has one entry per fit name, in order, whose `trace` is column `i` of the samples -/
+theorem src_mode_traces_unchanged {Name : Type} (names : List Name) (trace : List (List ℝ)) (w nmap nmean nsig : List ℝ)
+    (h : trace.length = w.length) :
+    ((srcMultinestMode names trace w nmap nmean nsig).2.1 = trace ∧
+     (srcMultinestMode names trace w nmap nmean nsig).2.2 = w ∧
+     (srcMultinestMode names trace w nmap nmean nsig).1.map Prod.fst = names ∧
+     ∀ i, i < names.length →
+       ((srcMultinestMode names trace w nmap nmean nsig).1[i]?).map (fun e => e.2.2.2.2.2.2.1) = some (column trace i)) ∧
+    ((srcPolychordMode names trace w nmap nmean nsig).2.1 = trace ∧
+     (srcPolychordMode names trace w nmap nmean nsig).2.2 = w ∧
+     (srcPolychordMode names trace w nmap nmean nsig).1.map Prod.fst = names ∧
+     ∀ i, i < names.length →
+       ((srcPolychordMode names trace w nmap nmean nsig).1[i]?).map (fun e => e.2.2.2.2.2.2.1) = some (column trace i)) := by
+  obtain ⟨htr, hwt, _⟩ := traces_unchanged names.length trace w
+  rw [srcMultinestMode_eq names trace w nmap nmean nsig h, srcPolychordMode_eq names trace w nmap nmean nsig h]
+  refine ⟨⟨htr, hwt, zipIdx_map_keys names _, ?_⟩, ⟨htr, hwt, zipIdx_map_keys names _, ?_⟩⟩
+  · intro i hi
+    show ((names.zipIdx.map _)[i]?).map _ = _
+    rw [zipIdx_map_getElem?, List.getElem?_eq_getElem hi]
+    rfl
+  · intro i hi
+    show ((names.zipIdx.map _)[i]?).map _ = _
+    rw [zipIdx_map_getElem?, List.getElem?_eq_getElem hi]
+    rfl
 
 end Taurex.C09SrcProps
